@@ -53,6 +53,9 @@ ACTIONS = ["New", "Add", "AddMany", "AddAnnotator", "Remove", "Copy", "CopyFlush
 CONCRETE = [
     {"ann": {1: "a", 2: "b"}, "lab": {0: None, 1: "x", 2: "y"}, "time": lambda t: float(t)},
     {"ann": {1: "B", 2: "a"}, "lab": {0: None, 1: "", 2: " z"}, "time": lambda t: 2.25 * t},
+    # ten hours into a recording, 20 ms apart: the times differ from the 7th significant digit on (0 stays 0: the library's
+    # initial bounds are the literal 0.0)
+    {"ann": {1: "a", 2: "b"}, "lab": {0: None, 1: "x", 2: "y"}, "time": lambda t: 0.0 if t == 0 else 36000.0 + 0.02 * t},
 ]
 
 
@@ -348,8 +351,8 @@ def run(tier, rep):
     if tier == "quick":
         l1(rep, 5, UNIV_A)
         l1(rep, 4, UNIV_B)
-        l2(rep, pa, 4, dict(UNIV_A, many="FALSE"), concretes=CONCRETE[1:])
-        l2(rep, pa, 3, UNIV_B, concretes=CONCRETE[:1])
+        l2(rep, pa, 4, dict(UNIV_A, many="FALSE"), concretes=CONCRETE[1:2])
+        l2(rep, pa, 3, UNIV_B, concretes=[CONCRETE[0], CONCRETE[2]])
         l2_sim(rep, pa, 150, 40, UNIV_B)
         l3(rep, pa, n_traces=150, length=40)
     else:
